@@ -755,8 +755,10 @@ func runSession(c *rp.Ctx, i int, cs *hsCase) rp.Result {
 		s1, err1 := checkStream(c, "the dialed client", "client", up, cm, cw)
 		s2, err2 := checkStream(c, "the upgraded server", "server", down, sm, sw)
 		sess = append(sess, s1, s2)
-		if err1 != nil || err2 != nil {
-			return rp.Result{What: fmt.Sprintf("%v %v (%s)", err1, err2, desc), Info: map[string]interface{}{"s": sess}}
+		for _, e := range []error{err1, err2} {
+			if e != nil {
+				return rp.Result{What: fmt.Sprintf("%v (%s)", e, desc), Info: map[string]interface{}{"s": sess}}
+			}
 		}
 	}
 	return rp.Result{OK: true, Nontriv: true, Info: map[string]interface{}{"s": sess}}
